@@ -3,7 +3,7 @@
    powers of two the Rust crate admits), [A] the element type. *)
 From Coq Require Import List Arith Bool.
 Import ListNotations.
-From NV Require Import Vector.Model Vector.History Vector.Wf Vector.HistoryAbs Vector.HistoryProofs Vector.Proofs.
+From NV Require Import Vector.Model Vector.History Vector.Wf Vector.HistoryAbs Vector.HistoryProofs Vector.RcHeap Vector.RcHeapProofs Vector.Proofs.
 
 (* ---- the property: histories over families of handles refine independent lists *)
 Theorem C17_history_refines : forall B ops, 2 <= B ->
@@ -135,3 +135,36 @@ Proof. exact bit_ops_agree_stmt. Qed.
 
 Theorem C17_leaf_mask_agrees : forall k idx, Nat.land idx (2 ^ k - 1) = idx mod 2 ^ k.
 Proof. exact leaf_mask_agrees_stmt. Qed.
+
+(* ---- T1: the same operations over an explicit heap of reference-counted nodes (Vector/RcHeap.v).
+   [hinv] = counts are exact w.r.t. the live handles; an operation through the handle in the middle
+   of [pre ++ v :: post] refines the value-level operation and leaves every other handle's
+   abstraction unchanged (frame). *)
+Theorem C17_rc_set_refines_frame : forall A B (hp : @heap A) pre v post idx x vv vv',
+  hinv hp (pre ++ v :: post) -> vabs hp v = Some vv -> vset B vv idx x = Some vv' ->
+  exists hp' v', hvset B hp v idx x = Some (hp', v')
+    /\ hinv hp' (pre ++ v' :: post) /\ vabs hp' v' = Some vv'
+    /\ (forall w, In w (pre ++ post) -> vabs hp' w = vabs hp w).
+Proof. exact rc_set_refines_frame_stmt. Qed.
+
+Theorem C17_rc_push_refines_frame : forall A B (hp : @heap A) pre v post x vv vv',
+  hinv hp (pre ++ v :: post) -> vabs hp v = Some vv -> vpush B vv x = Some vv' ->
+  exists hp' v', hvpush B hp v x = Some (hp', v')
+    /\ hinv hp' (pre ++ v' :: post) /\ vabs hp' v' = Some vv'
+    /\ (forall w, In w (pre ++ post) -> vabs hp' w = vabs hp w).
+Proof. exact rc_push_refines_frame_stmt. Qed.
+
+Theorem C17_rc_clone : forall A (hp : @heap A) hs v, hinv hp hs -> In v hs ->
+  let (hp', v') := hvclone hp v in
+  hinv hp' (v' :: hs) /\ vabs hp' v' = vabs hp v /\ forall w, vabs hp' w = vabs hp w.
+Proof. exact rc_clone_stmt. Qed.
+
+Theorem C17_rc_get : forall A B (hp : @heap A) v vv idx, vabs hp v = Some vv -> hvget B hp v idx = vget B vv idx.
+Proof. exact rc_get_stmt. Qed.
+
+Theorem C17_rc_new : forall A (hp : @heap A) hs, hinv hp hs ->
+  hinv hp (hvnew :: hs) /\ vabs hp hvnew = Some (@vnew A).
+Proof. exact rc_new_stmt. Qed.
+
+Theorem C17_rc_init : forall A, hinv (@nil (@cell A)) [].
+Proof. exact rc_init_stmt. Qed.
